@@ -597,6 +597,10 @@ nextBTreeItems(SetIteration *i)
         else
         {
             i->position = -1;
+            /* IndexError means the end of the sequence;  anything else
+             * (a bucket that could not be loaded, ...) is an error. */
+            if (!PyErr_ExceptionMatches(PyExc_IndexError))
+                return -1;
             PyErr_Clear();
         }
     }
@@ -637,6 +641,10 @@ nextTreeSetItems(SetIteration *i)
         else
         {
             i->position = -1;
+            /* IndexError means the end of the sequence;  anything else
+             * (a bucket that could not be loaded, ...) is an error. */
+            if (!PyErr_ExceptionMatches(PyExc_IndexError))
+                return -1;
             PyErr_Clear();
         }
     }
